@@ -518,3 +518,96 @@ func ReplayDoc(raw json.RawMessage) []string {
 func Replay(cfg pagedrv.Cfg, path []pagedrv.Op, extra *pagedrv.Op, flags []string, after func(e *pagedrv.Env)) (*pagedrv.Env, []pagedrv.Violation, error) {
 	return replay(cfg, path, extra, flags, after)
 }
+
+// ObsTask asks a child to replay paths and report their API-level
+// observations (instrumentation conformance: the same task is run on the
+// instrumented and on the plain build and the answers must be identical).
+type ObsTask struct {
+	Type  string         `json:"type"`
+	Cfg   string         `json:"cfg"`
+	Paths [][]pagedrv.Op `json:"paths"`
+}
+
+// ObsResult is the answer.
+type ObsResult struct {
+	EngineError string   `json:"engine_error,omitempty"`
+	Obs         []string `json:"obs"` // one line per path
+}
+
+// HandleObs is the child side of ObsTask.
+func HandleObs(raw []byte) interface{} {
+	var t ObsTask
+	if err := json.Unmarshal(raw, &t); err != nil {
+		return ObsResult{EngineError: err.Error()}
+	}
+	cfg, ok := pagedrv.CfgByName(t.Cfg)
+	if !ok {
+		return ObsResult{EngineError: "unknown cfg " + t.Cfg}
+	}
+	var res ObsResult
+	for _, p := range t.Paths {
+		line := ""
+		env, sv, err := replay(cfg, p, nil, nil, func(e *pagedrv.Env) {
+			if !e.Dead && e.F != nil && e.T == nil {
+				l := e.Logical()
+				line = fmt.Sprintf("free=%v end=%d/%d meta=%d root=%d stats=%+v", l.DataFree, l.DataEnd, l.MetaEnd, l.MetaTotal, l.Root, l.Stats)
+			}
+		})
+		if err != nil {
+			return ObsResult{EngineError: err.Error()}
+		}
+		var vc []string
+		for _, v := range append(env.Viol, sv...) {
+			vc = append(vc, v.Class)
+		}
+		res.Obs = append(res.Obs, strings.Join(env.Obs, ",")+" | "+line+" | viol="+strings.Join(vc, ","))
+	}
+	return res
+}
+
+// Conformance replays the given paths on the plain (uninstrumented) build and
+// on the instrumented build and compares the observations. A disagreement is
+// an engine error (the instrumentation changed behaviour), never a verdict.
+func Conformance(ctx *core.Ctx, pool, plain *par.Pool, cfg pagedrv.Cfg, paths [][]pagedrv.Op) int {
+	if plain == nil || len(paths) == 0 {
+		return 0
+	}
+	const batch = 40
+	var tasks [][]byte
+	var ranges [][2]int
+	for i := 0; i < len(paths); i += batch {
+		j := i + batch
+		if j > len(paths) {
+			j = len(paths)
+		}
+		b, _ := json.Marshal(ObsTask{Type: "obs", Cfg: cfg.Name, Paths: paths[i:j]})
+		tasks = append(tasks, b)
+		ranges = append(ranges, [2]int{i, j})
+	}
+	collect := func(p *par.Pool) []string {
+		out := make([]string, len(paths))
+		p.Run(tasks, time.Time{}, 10*time.Minute, func(i int, raw []byte, terr *par.TaskError) {
+			if terr != nil {
+				ctx.EngineError("conformance: %s %s", terr.Msg, terr.Stderr)
+				return
+			}
+			var r ObsResult
+			if err := json.Unmarshal(raw, &r); err != nil || r.EngineError != "" {
+				ctx.EngineError("conformance: %v %s", err, r.EngineError)
+				return
+			}
+			copy(out[ranges[i][0]:ranges[i][1]], r.Obs)
+		}, nil)
+		return out
+	}
+	a, b := collect(pool), collect(plain)
+	same := 0
+	for i := range paths {
+		if a[i] == b[i] && a[i] != "" {
+			same++
+		} else {
+			ctx.EngineError("instrumented and plain build disagree on [%s]: %q vs %q", pagedrv.PathString(paths[i]), a[i], b[i])
+		}
+	}
+	return same
+}
